@@ -1400,6 +1400,13 @@ package leveldb
 //@ func memGet
 //@   props C20
 //@   safety off
+// (the caller's batch stays the caller's: Write never puts it into the DB's batch pool, from which a later Put or
+// Delete would take, reset and overwrite it)
+//@ func (*DB).Write
+//@   props C20
+//@   safety off
+//@   nocall [C20:the-callers-batch-is-never-pooled] sync.Pool.Put
+
 //@ func (*DB).get
 //@   props C20
 //@   safety off
@@ -1851,7 +1858,7 @@ package leveldb
 //@ ghost var gRebuiltNum int64
 //@ ghost var gRebuiltNumFresh bool
 //@ func recoverTable$3
-//@   props C19
+//@   props C19 C06
 //@   abstract keys
 //@   safety off
 //@   at entry
@@ -1867,6 +1874,7 @@ package leveldb
 //@     invariant [C19:bounds-exist-with-a-valid-entry] tgoodKey >= 0 && tcorruptedKey >= 0 && (tgoodKey > 0 ==> (!isnil(imin) && !isnil(imax)))
 //@   at before stmt imax = append(imax[:0], key...)
 //@     assert [C19:table-sequence-covers-every-entry] tSeq >= seq && tSeq >= gLow
+//@     assert [C06,C19:recorded-bounds-are-taken-from-valid-entries-only] kerr == nil
 //@   at before call (*sessionRecord).addTable#1
 //@     assert [C19:registered-tables-are-sound] tgoodKey > 0 && !isnil(imin) && !isnil(imax) && maxSeq >= tSeq && !(strict && (tcorruptedKey > 0 || tcorruptedBlock > 0))
 //@     assert [C19:damaged-tables-are-rebuilt-first] (tcorruptedKey > 0 || tcorruptedBlock > 0) ==> calls("storage.Storage.Rename") == old(calls("storage.Storage.Rename")) + 1
@@ -1894,7 +1902,7 @@ package leveldb
 //@   at before call (*session).commit#1
 //@     assert [C19:manifest-carries-the-recovered-sequence] recHas(rec.hasRec, recSeqNum) && rec.seqNum == maxSeq
 //@ func (*sessionRecord).addTable
-//@   props C19
+//@   props C19 C06
 //@   trusted
 
 // ---------------------------------------------------------------------------
